@@ -27,11 +27,24 @@
 EXTENDS Naturals, Sequences, Bitwise, TLC, Words
 
 \* ------------------------------------------------------------ 32-bit words
+\* Two-limb forms of Words.tla AddW/SubW/XorW/RotLW (same mathematics, written out for speed).
 M16 == 65536
-Add32(a, b) == AddW(M16, a, b)          \* a + b mod 2^32
-Sub32(a, b) == SubW(M16, a, b)          \* a - b mod 2^32
-Xor32(a, b) == XorW(a, b)
-Rol32(a, r) == RotLW(M16, a, r)         \* a <<< r
+\* a + b mod 2^32
+Add32(a, b) == LET lo == a[1] + b[1]
+                   hi == a[2] + b[2] + (lo \div M16)
+               IN <<lo % M16, hi % M16>>
+\* a - b mod 2^32  (lo \div M16 = 0 exactly when the low limb borrows)
+Sub32(a, b) == LET lo == (M16 + a[1]) - b[1]
+                   hi == ((M16 - 1) + a[2] + (lo \div M16)) - b[2]
+               IN <<lo % M16, hi % M16>>
+Xor32(a, b) == <<a[1] ^^ b[1], a[2] ^^ b[2]>>
+\* a <<< r, 0 <= r <= 31
+Rol32(a, r) == LET s  == r % 16
+                   l0 == IF r >= 16 THEN a[2] ELSE a[1]     \* after rotating by whole limbs
+                   h0 == IF r >= 16 THEN a[1] ELSE a[2]
+               IN IF s = 0 THEN <<l0, h0>>
+                  ELSE <<((l0 * Pow2(s)) % M16) + (h0 \div Pow2(16 - s)),
+                         ((h0 * Pow2(s)) % M16) + (l0 \div Pow2(16 - s))>>
 \* byte k of a word, k = 0 (most significant, "Ia") .. 3 (least significant, "Id")
 B(w, k) == IF k = 0 THEN w[2] \div 256
            ELSE IF k = 1 THEN w[2] % 256
